@@ -242,7 +242,10 @@ def gen_case(rng, idx, tier):
     for _ in range(6):
         cq.append([rng.randint(0, max(w, 1)), rng.randint(0, max(h, 1)), rng.randint(0, 18),
                    rng.randint(0, 5), rng.choice(APPSTATES)])
-    return dict(kind="valid" if malformed is None else malformed, dims=[w, h], boot=list(boot), fill=fill,
+    grid = [[x, y] for x in range(-1, w + 1) for y in range(-1, h + 1)]
+    if len(grid) > 400:
+        grid = [[-1, -1], [0, 0], [w - 1, h - 1], [w, h], [w - 1, 0], [0, h - 1]] + rng.sample(grid, 60)
+    return dict(mq=grid, kind="valid" if malformed is None else malformed, dims=[w, h], boot=list(boot), fill=fill,
                 routes=routes, chips=chips, sver=sver, probes=probes, sver_queries=sq, contains_queries=cq,
                 also_get_machine=(idx % 5 == 0), sliver=sliver)
 
@@ -546,8 +549,8 @@ def case_exprs(c, out, sim, tag="k"):
         m = out["machine"]
         if isinstance(m, dict):
             add("machine", "hash_lll (flat_machine (build_machine si)) =? %s" % zlit(hlll(flat_machine(m))))
-            add("machine_queries", "hash_ll (machine_queries (build_machine si)) =? %s" % zlit(hll(
-                [[x, y, inn] + ([0] if r is None else [1] + r) + [lm] for x, y, inn, r, lm in out["machine_queries"]])))
+            add("machine_queries", "hash_ll (machine_queries (build_machine si) %s) =? %s" % (zll(c["mq"]), zlit(hll(
+                [[x, y, inn] + ([0] if r is None else [1] + r) + [lm] for x, y, inn, r, lm in out["machine_queries"]]))))
             add("machine_iter", "hash_ll (flat_chips (pm_iter (build_machine si))) =? %s" % zlit(hll(out["machine_iter"])))
         else:
             add("machine", "false")
